@@ -1460,6 +1460,7 @@ var evmSdPct = 4
 
 // evmCrPct is the chance (percent) per instruction slot of a CREATE; evmGen raises it for a seventh of the cases
 var evmCrPct = 2
+var evmCrSites = map[int]int{}
 
 // evmRecv is the value the frame being generated has just received ("" = none): a quarter of the value-carrying
 // calls forward exactly that amount, so that the frame's balance returns to what it was when it was loaded
@@ -1484,7 +1485,8 @@ func evmGenBody0(r *Rng, self int, depth int, s evmSetup) []evmInstr {
 	n := 1 + r.Intn(4)
 	body := []evmInstr{}
 	for i := 0; i < n; i++ {
-		if self >= aC1 && self <= aC3 && depth < 3 && r.Chance(evmCrPct) {
+		if self >= aC1 && self <= aC3 && depth < 3 && evmCrSites[self] < 2 && r.Chance(evmCrPct) {
+			evmCrSites[self]++ // the model knows two CREATE addresses per creator: at most two creation sites each
 			// CREATE: the constructor runs a script as the new contract; it may fail, return no code, self-destruct
 			ins := evmInstr{Op: "create", Catch: r.Chance(75), Record: r.Chance(50), NoCode: r.Chance(20)}
 			if r.Chance(60) {
@@ -1614,6 +1616,7 @@ func evmGen(r *Rng) evmInput {
 			evmCrPct = 22
 		}
 		evmRecv = in.Value
+		evmCrSites = map[int]int{}
 		in.Body = evmGenBody(r, in.To, 1, s)
 		evmRecv = ""
 		evmSdPct, evmCrPct = 4, 2
